@@ -77,6 +77,8 @@ inductive Stmt
   | alloc (v : Val)
   | op (o : Op)
   | append (s i : Nat) (off : Option Rat)
+  | wpix (s : Nat) (vals : List Rat)
+  | rebind (s : Nat) (shape : List Nat) (vals : List Rat)
 
 def pstmt (vars : List Nat) : P Stmt := do
   let t ← P.tok
@@ -124,6 +126,23 @@ def pstmt (vars : List Nat) : P Stmt := do
   | "wimg" => do let a ← pvar vars; let w ← pvar vars; let rz ← P.list P.rat; pure (.op (.weightImg a w rz))
   | "stack" => do let l ← pvar vars; pure (.op (.stack l))
   | "append" => do let s ← pvar vars; let i ← pvar vars; let off ← P.opt P.rat; pure (.append s i off)
+  | "wpix" => do let s ← pvar vars; let vs ← P.list P.rat; pure (.wpix s vs)
+  | "rebind" => do let s ← pvar vars; let sh ← P.list P.nat; let vs ← P.list P.rat; pure (.rebind s sh vs)
+  | "crebind" => do let a ← pvar vars; let sh ← P.list P.nat; let vs ← P.list P.rat; pure (.op (.copyRebind a sh vs))
+  | "derive" => do let a ← pvar vars; let sh ← P.list P.nat; let vs ← P.list P.rat; pure (.op (.derive a sh vs))
+  | "aclass" => do let a ← pvar vars; let fs ← P.bool; pure (.op (.astypeClass a fs))
+  | "tomono" => do let a ← pvar vars; let k ← P.opt P.nat; let cv ← P.list P.rat; pure (.op (.toMono a k cv))
+  | "reduce" => do
+    let a ← pvar vars; let ax ← P.nat; let sh ← P.list P.nat; let vs ← P.list P.rat; let no ← P.list P.rat
+    pure (.op (.reduceAxis a ax sh vs no))
+  | "extrude" => do
+    let a ← pvar vars; let ht ← P.rat; let num ← P.nat; let no ← P.list P.rat
+    pure (.op (.extrude a ht num no))
+  | "superpose" => do
+    let l ← pvar vars; let sh ← P.list P.nat; let vs ← P.list P.rat; let nd ← P.list P.rat; let no ← P.list P.rat
+    pure (.op (.superpose l sh vs nd no))
+  | "measure" => do let args ← P.list (pvar vars); let v ← P.rat; pure (.op (.measure args v))
+  | "arrmap" => do let a ← pvar vars; let vs ← P.list P.rat; pure (.op (.arrMap a vs))
   | _ => failure
 
 partial def splitStmts : List String → List (List String)
@@ -150,6 +169,14 @@ partial def runProg (h : Heap) (vars : List Nat) (acc : List String) : List (Lis
         | .error e => acc ++ [e.show ++ " " ++ dump h vars]
       | .append s i off =>
         match Heap.append h s i off with
+        | .ok h1 => let vars1 := vars ++ [s]; runProg h1 vars1 (acc ++ [dump h1 vars1]) rest
+        | .error e => acc ++ [e.show ++ " " ++ dump h vars]
+      | .wpix s vs =>
+        match Heap.writePixels h s vs with
+        | .ok h1 => let vars1 := vars ++ [s]; runProg h1 vars1 (acc ++ [dump h1 vars1]) rest
+        | .error e => acc ++ [e.show ++ " " ++ dump h vars]
+      | .rebind s sh vs =>
+        match Heap.rebindImg h s sh vs with
         | .ok h1 => let vars1 := vars ++ [s]; runProg h1 vars1 (acc ++ [dump h1 vars1]) rest
         | .error e => acc ++ [e.show ++ " " ++ dump h vars]
 
